@@ -273,6 +273,7 @@ static const OrcX86Opcode orc_x86_opcodes[] = {
   { "testl", ORC_X86_INSN_TYPE_IMM32_REGM, 0, ORC_VEX_SIMD_PREFIX_NONE, 0xf7, 0 },
   { "leal", ORC_X86_INSN_TYPE_REGM_REG, 0, ORC_VEX_SIMD_PREFIX_NONE, 0x8d },
   { "leaq", ORC_X86_INSN_TYPE_REGM_REG, 0, ORC_VEX_SIMD_PREFIX_NONE, 0x8d },
+  { "movslq", ORC_X86_INSN_TYPE_REGM_REG, 0, ORC_VEX_SIMD_PREFIX_NONE, 0x63 },
   { "imul", ORC_X86_INSN_TYPE_REGM_REG, 0, ORC_SIMD_PREFIX_ESCAPE_ONLY, 0xaf },
   { "imull", ORC_X86_INSN_TYPE_REGM, 0, ORC_VEX_SIMD_PREFIX_NONE, 0xf7, 5 },
   { "incl", ORC_X86_INSN_TYPE_REGM, 0, ORC_VEX_SIMD_PREFIX_NONE, 0xff, 0 },
